@@ -55,4 +55,30 @@ Fixpoint spec_run (h : list op) (bs : N -> bool) (tg : N -> option N) : (N -> bo
   | o :: h' => spec_run h' (spec_blobs_step bs o) (spec_tags_step bs tg o)
   end.
 
+(* ---------- completed effects across earlier crashes ---------- *)
+(* blob d was stored by a push that RETURNED (Done) and no operation since -- completed or
+   interrupted -- was a Delete of d (cascades and sweeps are sequences of such deletes) *)
+Definition stored_step (d : N) (acc : bool) (x : hop) : bool :=
+  match x with
+  | Done (Push d' c _) => if (d' =? d) && (H c =? d) then true else acc
+  | Done (Delete d') | Crashed (Delete d') _ => if d' =? d then false else acc
+  | _ => acc
+  end.
+Definition stored_since (d : N) (h : list hop) : bool := fold_left (stored_step d) h false.
+
+(* reference r was set to blob d by a Tag that RETURNED while d was stored (so it succeeded),
+   and no operation since -- completed or interrupted -- was a Tag or Untag of r or a
+   Delete of d.  State: (d stored since, r -> d since). *)
+Definition tagged_step (d r : N) (acc : bool * bool) (x : hop) : bool * bool :=
+  let st' := stored_step d (fst acc) x in
+  match x with
+  | Done (Tag d' r') => if r' =? r then (st', (d' =? d) && fst acc) else (st', snd acc)
+  | Crashed (Tag _ r') _ | Done (Untag r') | Crashed (Untag r') _ =>
+      if r' =? r then (st', false) else (st', snd acc)
+  | Done (Delete d') | Crashed (Delete d') _ => if d' =? d then (st', false) else (st', snd acc)
+  | _ => (st', snd acc)
+  end.
+Definition tagged_since (d r : N) (h : list hop) : bool :=
+  snd (fold_left (tagged_step d r) h (false, false)).
+
 End Spec.
